@@ -316,4 +316,495 @@ theorem setsLoop_cost (f2 : Bool) (b : Bytes) (pos nsets : Nat) :
       (by omega) (by omega)
     omega
 
+
+/-! ## what `coverage.Read` and `classdef.Read` return -/
+
+/-- the entries `(g_k, k)` of a strictly increasing glyph list: a valid `coverage.Table` -/
+def CovOk (es : List (Nat × Nat)) : Prop :=
+  ∃ gs : List Nat, es = gs.zipIdx ∧ gs.Pairwise (· < ·)
+
+theorem covLoop1_inv (b : Bytes) : ∀ (n q i : Nat) (prev : Int) (acc : List (Nat × Nat))
+    (c : Cost) (r : List (Nat × Nat)) (c' : Cost), covLoop1 b n q i prev acc c = .ok (r, c') →
+    ∀ gs0 : List Nat, acc.reverse = gs0.zipIdx → gs0.length = i → gs0.Pairwise (· < ·) →
+      (∀ g ∈ gs0, (g : Int) ≤ prev) → CovOk r ∧ r.length + c.alloc = acc.length + c'.alloc
+  | 0, _, _, _, acc, c, r, c', h, gs0, ha, _, hp, _ => by
+    unfold covLoop1 at h
+    cases h
+    exact ⟨⟨gs0, ha, hp⟩, by rw [List.length_reverse]⟩
+  | n+1, q, i, prev, acc, c, r, c', h, gs0, ha, hl, hp, hb => by
+    unfold covLoop1 at h
+    obtain ⟨gid, hg, h⟩ := bind_eq_ok h
+    split at h
+    · cases h
+    rename_i hgt
+    have ih := covLoop1_inv b n _ _ _ _ _ _ _ h (gs0 ++ [gid])
+      (by rw [List.reverse_cons, ha, List.zipIdx_append]; simp [hl])
+      (by simp [hl])
+      (by
+        rw [List.pairwise_append]
+        refine ⟨hp, List.pairwise_singleton _ _, ?_⟩
+        intro a ha' x hx
+        simp only [List.mem_singleton] at hx
+        subst hx
+        have := hb a ha'
+        omega)
+      (by
+        intro g hg'
+        rw [List.mem_append] at hg'
+        rcases hg' with h1 | h1
+        · have := hb g h1; omega
+        · simp only [List.mem_singleton] at h1
+          subst h1
+          omega)
+    simp only [List.length_cons, Cost.tick, Cost.mem] at ih ⊢
+    exact ⟨ih.1, by omega⟩
+
+theorem covLoop2_inv (b : Bytes) : ∀ (n q pos : Nat) (prev : Int) (acc : List (Nat × Nat))
+    (c : Cost) (r : List (Nat × Nat)) (c' : Cost), covLoop2 b n q pos prev acc c = .ok (r, c') →
+    ∀ gs0 : List Nat, acc.reverse = gs0.zipIdx → gs0.length = pos → gs0.Pairwise (· < ·) →
+      (∀ g ∈ gs0, (g : Int) ≤ prev) → CovOk r ∧ r.length + c.alloc = acc.length + c'.alloc
+  | 0, _, _, _, acc, c, r, c', h, gs0, ha, _, hp, _ => by
+    unfold covLoop2 at h
+    cases h
+    exact ⟨⟨gs0, ha, hp⟩, by rw [List.length_reverse]⟩
+  | n+1, q, pos, prev, acc, c, r, c', h, gs0, ha, hl, hp, hb => by
+    unfold covLoop2 at h
+    obtain ⟨buf, hbuf, h⟩ := bind_eq_ok h
+    obtain ⟨s, _, h⟩ := bind_eq_ok h
+    obtain ⟨e, _, h⟩ := bind_eq_ok h
+    obtain ⟨sci, _, h⟩ := bind_eq_ok h
+    split at h
+    · cases h
+    rename_i hcond
+    dsimp only at h
+    have ih := covLoop2_inv b n _ _ _ _ _ _ _ h (gs0 ++ List.range' s (e + 1 - s))
+      (by
+        rw [List.reverse_append, List.reverse_reverse, ha, List.zipIdx_append, hl, Nat.zero_add])
+      (by rw [List.length_append, List.length_range', hl])
+      (by
+        rw [List.pairwise_append]
+        refine ⟨hp, List.pairwise_lt_range', ?_⟩
+        intro a ha' x hx
+        rw [List.mem_range'_1] at hx
+        have := hb a ha'
+        omega)
+      (by
+        intro g hg'
+        rw [List.mem_append] at hg'
+        rcases hg' with h1 | h1
+        · have := hb g h1; omega
+        · rw [List.mem_range'_1] at h1
+          omega)
+    simp only [List.length_append, List.length_reverse, List.length_zipIdx, List.length_range',
+      Cost.tick, Cost.mem] at ih ⊢
+    exact ⟨ih.1, by omega⟩
+
+/-- `coverage.Read` returns a valid table (`len(cov)` entries, one element allocated per entry) -/
+theorem coverageRead_inv {b : Bytes} {pos : Nat} {es : List (Nat × Nat)} {c : Cost}
+    (h : coverageRead b pos = .ok (es, c)) : CovOk es ∧ es.length + 1 = c.alloc := by
+  unfold coverageRead at h
+  obtain ⟨format, _, h⟩ := bind_eq_ok h
+  dsimp only at h
+  split at h
+  · obtain ⟨n, _, h⟩ := bind_eq_ok h
+    have := covLoop1_inv b n _ _ _ _ _ _ _ h [] rfl rfl List.Pairwise.nil (fun _ hg => nomatch hg)
+    simp only [List.length_nil, Cost.tick, Cost.mem, Cost.zero] at this
+    exact ⟨this.1, by omega⟩
+  split at h
+  · obtain ⟨n, _, h⟩ := bind_eq_ok h
+    have := covLoop2_inv b n _ _ _ _ _ _ _ h [] rfl rfl List.Pairwise.nil (fun _ hg => nomatch hg)
+    simp only [List.length_nil, Cost.tick, Cost.mem, Cost.zero] at this
+    exact ⟨this.1, by omega⟩
+  · cases h
+
+theorem coverageRead_len {b : Bytes} {pos : Nat} {es : List (Nat × Nat)} {c : Cost}
+    (h : coverageRead b pos = .ok (es, c)) : es.length ≤ 65536 := by
+  have := (coverageRead_inv h).2
+  have := (coverageRead_cost b pos es c h).2
+  omega
+
+/-- `cov.EncodeLen()` of a table returned by `coverage.Read` never panics -/
+theorem covEncodeLen_ok {es : List (Nat × Nat)} (h : CovOk es) (c : Cost) :
+    ∃ n, covEncodeLen es c = .ok (n, (c.mem es.length).tick (3 * es.length)) := by
+  obtain ⟨gs, rfl, hp⟩ := h
+  unfold covEncodeLen
+  have h1 : SfntV.Otl.Cov.revOf (gs.zipIdx.map fun p => (p.1, (p.2 : Int))) = .ok gs :=
+    SfntV.Otl.Cov.revOf_table gs _ (List.Perm.refl _)
+  rw [h1]
+  have hi := SfntV.Otl.Cov.increasing_of_pairwise gs hp
+  simp only [SfntV.Otl.Cov.encodeLen, hi, Bool.not_true, Bool.false_eq_true, if_false]
+  exact ⟨_, rfl⟩
+
+theorem cdLoop1_len (b : Bytes) (start : Nat) : ∀ (n q i : Nat) (acc : List (Nat × Nat))
+    (c : Cost) (r : List (Nat × Nat)) (c' : Cost), cdLoop1 b start n q i acc c = .ok (r, c') →
+    r.length ≤ acc.length + n
+  | 0, _, _, _, _, _, _, h => by
+    unfold cdLoop1 at h
+    cases h
+    simp
+  | n+1, q, i, acc, c, r, c', h => by
+    unfold cdLoop1 at h
+    obtain ⟨cv, _, h⟩ := bind_eq_ok h
+    have ih := cdLoop1_len b start n _ _ _ _ _ _ h
+    split at ih
+    · simp only [List.length_cons] at ih
+      omega
+    · omega
+
+theorem cdLoop2_len (fixed : Bool) (b : Bytes) : ∀ (n q i prevEnd : Nat)
+    (acc : List (Nat × Nat)) (c : Cost) (r : List (Nat × Nat)) (c' : Cost),
+    cdLoop2 fixed b n q i prevEnd acc c = .ok (r, c') →
+    r.length + c.alloc = acc.length + c'.alloc
+  | 0, _, _, _, _, _, _, _, h => by
+    unfold cdLoop2 at h
+    cases h
+    rfl
+  | n+1, q, i, prevEnd, acc, c, r, c', h => by
+    unfold cdLoop2 at h
+    obtain ⟨buf, _, h⟩ := bind_eq_ok h
+    obtain ⟨s, _, h⟩ := bind_eq_ok h
+    obtain ⟨e, _, h⟩ := bind_eq_ok h
+    obtain ⟨cv, _, h⟩ := bind_eq_ok h
+    split at h
+    · cases h
+    split at h
+    · cases h
+    dsimp only at h
+    have ih := cdLoop2_len fixed b n _ _ _ _ _ _ _ h
+    simp only [List.length_append, List.length_map, List.length_range', Cost.tick, Cost.mem] at ih
+    omega
+
+/-- `classdef.Read` returns at most 65537 entries (at most one per allocated element) -/
+theorem classdefRead_len {b : Bytes} {pos : Nat} {es : List (Nat × Nat)} {c : Cost}
+    (h : classdefRead b pos = .ok (es, c)) : es.length ≤ 65537 := by
+  have hc := (classdefRead_cost b pos es c h).2
+  unfold classdefRead classdefReadG at h
+  obtain ⟨version, _, h⟩ := bind_eq_ok h
+  dsimp only at h
+  split at h
+  · obtain ⟨data, _, h⟩ := bind_eq_ok h
+    obtain ⟨start, _, h⟩ := bind_eq_ok h
+    obtain ⟨count, hcount, h⟩ := bind_eq_ok h
+    have hclt := w16_lt hcount
+    split at h
+    · cases h
+    rw [mkSlice_ok _ _ _ hclt, ok_bind] at h
+    have := cdLoop1_len b start count _ _ _ _ _ _ h
+    simp only [List.length_nil] at this
+    omega
+  split at h
+  · obtain ⟨n, _, h⟩ := bind_eq_ok h
+    have := cdLoop2_len true b n _ _ _ _ _ _ _ h
+    simp only [List.length_nil, Cost.tick, Cost.mem, Cost.zero] at this
+    omega
+  · cases h
+
+/-! ## readSeqContext1 -/
+
+theorem prune_cost (cov : List (Nat × Nat)) (n : Nat) (c : Cost) :
+    (prune cov n c).1.length ≤ cov.length ∧ (prune cov n c).2.steps ≤ c.steps + 2 * cov.length ∧
+      (prune cov n c).2.alloc ≤ c.alloc + cov.length := by
+  have := List.length_filter_le (fun p : Nat × Nat => decide (p.2 < n)) cov
+  simp only [prune, Cost.tick, Cost.mem]
+  omega
+
+/-- `readSeqContext1` never panics: all bytes, all parser positions, all subtable positions -/
+theorem readSeqContext1_noPanic (b : Bytes) (q pos : Nat) : (readSeqContext1 b q pos).noPanic := by
+  unfold readSeqContext1
+  refine bind_noPanic (readU16_noPanic _ _ _) (fun covOff _ => ?_)
+  refine bind_noPanic (readU16Slice_noPanic _ _ _) (fun ⟨offs, q1, c1⟩ hs => ?_)
+  obtain ⟨hlt, _⟩ := readU16Slice_ok hs
+  dsimp only
+  refine bind_noPanic (coverageRead_noPanic _ _) (fun ⟨cov, cc⟩ _ => ?_)
+  dsimp only
+  refine bind_noPanic ?_ (fun ⟨cov', offs', c2⟩ h2 => ?_)
+  · split
+    · exact True.intro
+    · rw [sliceTo_ok _ _ (by omega)]
+      exact True.intro
+  · have hl : offs'.length ≤ offs.length := by
+      split at h2
+      · cases h2
+        exact Nat.le_refl _
+      · rw [sliceTo_ok _ _ (by omega)] at h2
+        cases h2
+        rw [List.length_take]
+        omega
+    dsimp only
+    rw [mkSlice_ok _ _ _ (by omega), ok_bind]
+    exact bind_noPanic (setsLoop_noPanic false b pos _ offs' 0 _ _ _ (by omega))
+      (fun ⟨sets, t, c3⟩ _ => True.intro)
+
+/-- cost of `readSeqContext1`, the TRUE bound (`h = |b|/2`): `sets·(h² + 1) + 2h + 196610` steps
+and `sets·(h² + h) + 2h + 131074` elements, where `sets = min(seqRuleSetCount, len(cov))` is at most
+`h` and at most 65536: CUBIC in the input length — the set offsets may all point at one rule set,
+its rule offsets at one rule of `h` glyphs; there is no size cap in this reader -/
+theorem readSeqContext1_cost (b : Bytes) (q pos : Nat) (r : Ctx1) (c : Cost)
+    (h : readSeqContext1 b q pos = .ok (r, c)) :
+    c.steps ≤ r.sets.length * (b.length / 2 * (b.length / 2) + 1) + 2 * (b.length / 2) + 196610 ∧
+    c.alloc ≤ r.sets.length * (b.length / 2 * (b.length / 2) + b.length / 2) + 2 * (b.length / 2)
+      + 131074 ∧
+    r.sets.length ≤ b.length / 2 ∧ r.sets.length ≤ 65536 := by
+  unfold readSeqContext1 at h
+  obtain ⟨covOff, hco, h⟩ := bind_eq_ok h
+  obtain ⟨_, _, hq⟩ := readU16_ok hco
+  obtain ⟨⟨offs, q1, c1⟩, hs, h⟩ := bind_eq_ok h
+  have k1 := readU16Slice_ok hs
+  dsimp only at h
+  obtain ⟨⟨cov, cc⟩, hcov, h⟩ := bind_eq_ok h
+  have k2 := coverageRead_cost b _ cov cc hcov
+  have k2' := coverageRead_len hcov
+  dsimp only at h
+  obtain ⟨⟨cov', offs', c2⟩, h2, h⟩ := bind_eq_ok h
+  have k3 : offs'.length ≤ offs.length ∧ c2.steps ≤ (plus c1 cc).steps + 2 * cov.length ∧
+      c2.alloc ≤ (plus c1 cc).alloc + cov.length := by
+    split at h2
+    · cases h2
+      have := prune_cost cov offs.length (plus c1 cc)
+      exact ⟨Nat.le_refl _, this.2.1, this.2.2⟩
+    · obtain ⟨o2, ho2, h2⟩ := bind_eq_ok h2
+      rename_i hle
+      rw [sliceTo_ok _ _ (by omega)] at ho2
+      cases ho2
+      cases h2
+      rw [List.length_take]
+      omega
+  dsimp only at h
+  obtain ⟨c3, hm, h⟩ := bind_eq_ok h
+  have := mkSlice_eq hm
+  subst this
+  obtain ⟨⟨sets, t, c4⟩, hsets, h⟩ := bind_eq_ok h
+  have k4 := setsLoop_cost false b pos _ offs' 0 _ _ _ _ _ _ hsets
+  dsimp only at h
+  cases h
+  simp only [List.length_nil, Cost.tick, Cost.mem, Cost.zero, plus] at k1 k2 k3 k4 ⊢
+  rw [k4.1, Nat.zero_add]
+  omega
+
+/-! ## readSeqContext2 -/
+
+/-- `readSeqContext2` never panics: all bytes, all parser positions, all subtable positions -/
+theorem readSeqContext2_noPanic (b : Bytes) (q pos : Nat) : (readSeqContext2 b q pos).noPanic := by
+  unfold readSeqContext2
+  refine bind_noPanic (readBytes_noPanic _ _ _ _ (by omega)) (fun buf hbuf => ?_)
+  obtain ⟨covOff, cdOff, h1, h2, _⟩ := rec4_ok "nested.go:294#buf[0],buf[1]"
+    "nested.go:295#buf[2],buf[3]" hbuf
+  rw [h1, ok_bind, h2, ok_bind]
+  refine bind_noPanic (readU16Slice_noPanic _ _ _) (fun ⟨offs, q1, c1⟩ hs => ?_)
+  obtain ⟨hlt, _⟩ := readU16Slice_ok hs
+  dsimp only
+  refine bind_noPanic (coverageRead_noPanic _ _) (fun ⟨cov, cc⟩ hcov => ?_)
+  dsimp only
+  refine bind_noPanic (classdefRead_noPanic _ _) (fun ⟨cd, cc2⟩ _ => ?_)
+  dsimp only
+  refine bind_noPanic ?_ (fun offs' h2 => ?_)
+  · split
+    · rw [sliceTo_ok _ _ (by omega)]
+      exact True.intro
+    · exact True.intro
+  · have hl : offs'.length ≤ offs.length := by
+      split at h2
+      · rw [sliceTo_ok _ _ (by omega)] at h2
+        cases h2
+        rw [List.length_take]
+        omega
+      · cases h2
+        exact Nat.le_refl _
+    rw [mkSlice_ok _ _ _ (by omega), ok_bind]
+    refine bind_noPanic (setsLoop_noPanic true b pos _ offs' 0 _ _ _ (by omega))
+      (fun ⟨sets, t, c3⟩ _ => ?_)
+    dsimp only
+    obtain ⟨n, hn⟩ := covEncodeLen_ok (coverageRead_inv hcov).1 c3
+    rw [hn, ok_bind]
+    dsimp only
+    split <;> exact True.intro
+
+/-- cost of `readSeqContext2`: a SUCCESSFUL run is linear, `3·(|b|/2) + 458750` steps and
+`2·(|b|/2) + 262138` elements: the running size `total` grows with every rule-set and rule visit
+(aliased or not) and is capped at `0xFFFF` — but the cap is tested only AFTER the loops
+(nested.go:377), so a REJECTED input has done (and allocated) everything that `setsLoop_cost` allows
+(cubic) before it is refused -/
+theorem readSeqContext2_cost (b : Bytes) (q pos : Nat) (r : Ctx2) (c : Cost)
+    (h : readSeqContext2 b q pos = .ok (r, c)) :
+    c.steps ≤ 3 * (b.length / 2) + 458750 ∧ c.alloc ≤ 2 * (b.length / 2) + 262138 ∧
+      r.sets.length ≤ b.length / 2 := by
+  unfold readSeqContext2 at h
+  obtain ⟨buf, hbuf, h⟩ := bind_eq_ok h
+  obtain ⟨_, hq⟩ := readBytes_ok_length hbuf
+  obtain ⟨covOff, _, h⟩ := bind_eq_ok h
+  obtain ⟨cdOff, _, h⟩ := bind_eq_ok h
+  obtain ⟨⟨offs, q1, c1⟩, hs, h⟩ := bind_eq_ok h
+  have k1 := readU16Slice_ok hs
+  dsimp only at h
+  obtain ⟨⟨cov, cc⟩, hcov, h⟩ := bind_eq_ok h
+  have k2 := coverageRead_cost b _ cov cc hcov
+  have k2' := coverageRead_len hcov
+  dsimp only at h
+  obtain ⟨⟨cd, cc2⟩, hcd, h⟩ := bind_eq_ok h
+  have k3 := classdefRead_cost b _ cd cc2 hcd
+  have k3' := classdefRead_len hcd
+  dsimp only at h
+  obtain ⟨offs', h2, h⟩ := bind_eq_ok h
+  have k4 : offs'.length ≤ offs.length := by
+    split at h2
+    · rename_i hgt
+      rw [sliceTo_ok _ _ (by omega)] at h2
+      cases h2
+      rw [List.length_take]
+      omega
+    · cases h2
+      exact Nat.le_refl _
+  obtain ⟨c3, hm, h⟩ := bind_eq_ok h
+  have := mkSlice_eq hm
+  subst this
+  obtain ⟨⟨sets, t, c4⟩, hsets, h⟩ := bind_eq_ok h
+  have k5 := setsLoop_cost true b pos _ offs' 0 _ _ _ _ _ _ hsets
+  dsimp only at h
+  obtain ⟨n, hn⟩ := covEncodeLen_ok (coverageRead_inv hcov).1 c4
+  rw [hn, ok_bind] at h
+  dsimp only at h
+  split at h
+  · cases h
+  rename_i hcap
+  cases h
+  simp only [List.length_nil, Cost.tick, Cost.mem, Cost.zero, plus] at k1 k2 k3 k5 ⊢
+  rw [k5.1, Nat.zero_add]
+  omega
+
+/-! ## readSeqContext3 -/
+
+theorem covsLoop_noPanic (b : Bytes) (pos gc : Nat) :
+    ∀ (os : List Nat) (i : Nat) (acc : List (List Nat)) (c : Cost),
+      i + os.length ≤ gc → (covsLoop b pos gc os i acc c).noPanic
+  | [], _, _, _, _ => True.intro
+  | o :: os, i, acc, c, hi => by
+    unfold covsLoop
+    simp only [List.length_cons] at hi
+    refine bind_noPanic (readSet_noPanic _ _) (fun ⟨s, cc⟩ _ => ?_)
+    dsimp only
+    rw [chk_ok _ (by omega : i < gc), ok_bind]
+    exact covsLoop_noPanic b pos gc os (i + 1) _ _ (by omega)
+
+/-- every coverage offset is one full `coverage.ReadSet`: at most `|b|/2 + 131073` steps and
+131072 elements each (the caps of `readSet_cost`), plus the loop iteration -/
+theorem covsLoop_cost (b : Bytes) (pos gc : Nat) :
+    ∀ (os : List Nat) (i : Nat) (acc : List (List Nat)) (c : Cost) (r : List (List Nat))
+      (c' : Cost), covsLoop b pos gc os i acc c = .ok (r, c') →
+      r.length = acc.length + os.length ∧
+      c'.steps ≤ c.steps + os.length * (b.length / 2 + 131074) ∧
+      c'.alloc ≤ c.alloc + os.length * 131072
+  | [], _, _, _, _, _, h => by
+    unfold covsLoop at h
+    cases h
+    simp
+  | o :: os, i, acc, c, r, c', h => by
+    unfold covsLoop at h
+    obtain ⟨⟨s, cc⟩, hs, h⟩ := bind_eq_ok h
+    dsimp only at h
+    obtain ⟨_, _, h⟩ := bind_eq_ok h
+    have k := readSet_cost b _ s cc hs
+    have ih := covsLoop_cost b pos gc os _ _ _ _ _ h
+    simp only [List.length_cons, Cost.tick, plus] at ih ⊢
+    rw [Nat.succ_mul]
+    omega
+
+/-- `readSeqContext3` never panics: all bytes, all parser positions, all subtable positions -/
+theorem readSeqContext3_noPanic (b : Bytes) (q pos : Nat) : (readSeqContext3 b q pos).noPanic := by
+  unfold readSeqContext3
+  refine bind_noPanic (readBytes_noPanic _ _ _ _ (by omega)) (fun buf hbuf => ?_)
+  obtain ⟨gc, lc, h1, h2, hglt, hllt, _⟩ := rec4_ok "nested.go:541#buf[0],buf[1]"
+    "nested.go:548#buf[2],buf[3]" hbuf
+  rw [h1, ok_bind]
+  split
+  · exact True.intro
+  rw [h2, ok_bind, mkSlice_ok _ _ _ hglt, ok_bind]
+  refine bind_noPanic (u16Loop_noPanic _ b _ _ _ _) (fun ⟨offs, q1, c1⟩ hu => ?_)
+  obtain ⟨hlen, _⟩ := u16Loop_ok _ b _ _ _ _ _ _ _ hu
+  dsimp only
+  refine bind_noPanic (readNested_noPanic b q1 lc c1 (by omega)) (fun ⟨acts, q2, c2⟩ _ => ?_)
+  dsimp only
+  rw [mkSlice_ok _ _ _ hglt, ok_bind]
+  simp only [List.length_nil] at hlen
+  exact bind_noPanic (covsLoop_noPanic b pos gc offs 0 _ _ (by omega))
+    (fun ⟨covs, c3⟩ _ => True.intro)
+
+/-- cost of `readSeqContext3`, the TRUE bound (`h = |b|/2`, `covs = glyphCount ≤ h`): linear in
+the header and the actions, plus `glyphCount` coverage-set reads, each capped by a constant
+(131072 elements) but each up to `h` steps (the offsets may all point at one long format-1 table):
+`covs·(h + 131075) + h` steps, `covs·131074 + h` elements -/
+theorem readSeqContext3_cost (b : Bytes) (q pos : Nat) (r : Ctx3) (c : Cost)
+    (h : readSeqContext3 b q pos = .ok (r, c)) :
+    c.steps ≤ r.covs.length * (b.length / 2 + 131075) + b.length / 2 ∧
+    c.alloc ≤ r.covs.length * 131074 + b.length / 2 ∧
+    1 ≤ r.covs.length ∧ r.covs.length ≤ b.length / 2 ∧
+    r.covs.length + 2 * r.actions.length + 2 ≤ b.length / 2 := by
+  unfold readSeqContext3 at h
+  obtain ⟨buf, hbuf, h⟩ := bind_eq_ok h
+  obtain ⟨_, hq⟩ := readBytes_ok_length hbuf
+  obtain ⟨gc, hg, h⟩ := bind_eq_ok h
+  have hglt := w16_lt hg
+  split at h
+  · cases h
+  rename_i hg1
+  obtain ⟨lc, hl, h⟩ := bind_eq_ok h
+  rw [mkSlice_ok _ _ _ hglt, ok_bind] at h
+  obtain ⟨⟨offs, q1, c1⟩, hu, h⟩ := bind_eq_ok h
+  have k1 := u16Loop_ok _ b _ _ _ _ _ _ _ hu
+  dsimp only at h
+  obtain ⟨⟨acts, q2, c2⟩, hn, h⟩ := bind_eq_ok h
+  have k2 := readNested_cost hn
+  dsimp only at h
+  rw [mkSlice_ok _ _ _ hglt, ok_bind] at h
+  obtain ⟨⟨covs, c3⟩, hc, h⟩ := bind_eq_ok h
+  have k3 := covsLoop_cost b pos gc offs 0 _ _ _ _ hc
+  dsimp only at h
+  cases h
+  simp only [List.length_nil, Cost.tick, Cost.mem, Cost.zero] at k1 k2 k3 ⊢
+  have e1 : covs.length = gc := by omega
+  rw [k3.1, Nat.zero_add, k1.1, Nat.zero_add] at *
+  have hmul : gc * (b.length / 2 + 131075) = gc * (b.length / 2 + 131074) + gc := by
+    rw [Nat.mul_add, Nat.mul_add]; omega
+  omega
+
+/-! ## the dispatch -/
+
+theorem gsub5_noPanic (b : Bytes) (pos : Nat) : (gsub5 b pos).noPanic := by
+  unfold gsub5
+  refine bind_noPanic (readU16_noPanic _ _ _) (fun format _ => ?_)
+  split
+  · exact bind_noPanic (readSeqContext1_noPanic _ _ _) (fun ⟨_, _⟩ _ => True.intro)
+  split
+  · exact bind_noPanic (readSeqContext2_noPanic _ _ _) (fun ⟨_, _⟩ _ => True.intro)
+  split
+  · exact bind_noPanic (readSeqContext3_noPanic _ _ _) (fun ⟨_, _⟩ _ => True.intro)
+  split <;> exact True.intro
+
+/-! ## non-vacuity -/
+
+/-- two lookup records -/
+example : readNested [9, 0,1,0,2, 0,3,0,4] 1 2 Cost.zero = .ok ([(1,2), (3,4)], 9, ⟨2, 2⟩) := by
+  decide +kernel
+
+/-- format 1 (as `readGsubSubtable` calls it: parser behind the format word): coverage {5, 6},
+first set one rule `7 > 0:1`, second set nil -/
+example : readSeqContext1
+    [0,1, 0,24, 0,2, 0,10, 0,0,   0,1, 0,4,  0,2, 0,1, 0,7, 0,0, 0,1,   0,1, 0,2, 0,5, 0,6] 2 0
+    = .ok (⟨[(5,0), (6,1)], [some [⟨[7], [(0,1)]⟩], none]⟩, ⟨16, 13⟩) := by decide +kernel
+
+/-- format 2: coverage {5}, classes {5 ↦ 1}, set 0 nil, set 1 one rule `1 >` (no actions);
+total = 8 + 4 + (2 + 2) + (4 + 2) + 6 = 28 -/
+example : readSeqContext2
+    [0,2, 0,22, 0,28, 0,2, 0,0, 0,12,   0,1, 0,4,  0,2, 0,0, 0,1,   0,1, 0,1, 0,5,
+     0,1, 0,5, 0,1, 0,1] 2 0
+    = .ok (⟨[(5,0)], [(5,1)], [none, some [⟨[1], []⟩]]⟩, ⟨21, 13⟩) := by decide +kernel
+
+/-- format 3: two input positions sharing one coverage table {5, 6}, one action -/
+example : readSeqContext3 [0,3, 0,2, 0,1, 0,14, 0,14, 0,1, 0,9,   0,1, 0,2, 0,5, 0,6] 2 0
+    = .ok (⟨[[5, 6], [5, 6]], [(1,9)]⟩, ⟨14, 12⟩) := by decide +kernel
+
+/-- a glyph count of 0 is refused before `make([]glyph.ID, glyphCount-1)` -/
+example : readSeqContext1
+    [0,1, 0,16, 0,1, 0,8,   0,1, 0,4,  0,0, 0,0,   0,1, 0,1, 0,5] 2 0
+    = .err "invalid" := by decide +kernel
+
 end SfntV.Total.SeqCtx
